@@ -142,9 +142,11 @@ example : coerceValue reg2 1 (.named "Float") (.float "inf") = .error .coercion 
 example : coerceValue reg2 1 (.named "Float") (.str "nan") = .error .coercion := by rfl
 example : valueFromAst reg2 none 1 (.named "Float") (.float "1e999") = .error .coercion := by rfl
 example : coerceValue reg2 1 (.named "Float") (.float "1.5") = .ok (.float (.text "1.5")) := by rfl
-example : coerceValue reg2 1 (.named "Int") (.float "inf") = .error .internal := by rfl
-/-- a collected CoercionError does not hide a later escaping exception (`_coerce_list_value` goes on) -/
-example : coerceValue reg2 2 (.list (.named "Int")) (.list [.str "x", .float "inf"]) = .error .internal := by rfl
+example : coerceValue reg2 1 (.named "Int") (.float "inf") = .error .coercion := by rfl
+/-- a collected CoercionError does not hide a later escaping exception (`_coerce_list_value` goes on): here the recursion budget -/
+example : coerceValue reg 2 (.list (.named "Rec")) (.list [.str "x", .obj [("next", .obj [])]]) = .error .fuel := by rfl
+/-- fix A7: for a VARIABLE, "nested too deeply" is an invalid value, not an escaping RecursionError -/
+example : coerceVariable reg 1 [("v", .obj [("next", .obj [])])] { name := "v", type := .named "Rec", default := none } = .error .coercion := by rfl
 
 /-! #### the two side conditions are needed, and what the code does without them -/
 
